@@ -24,6 +24,7 @@ Definition lts_status_ok (c : Stream.case) : bool :=
                         | _ => true
                         end) comp
   | Stream.GoChecked _ _ ok => ok
+  | Stream.Http c => HttpSched.oracle_case c
   end.
 
 Definition oracle_case (k : case) : bool :=
@@ -41,6 +42,7 @@ Definition oracle_case (k : case) : bool :=
           | OneStatus c => (c =? (if code =? -1 then 2 else code)) || ((c =? 13) && (2 <=? Z.of_nat (length (sent_msgs script))))
           end
       | Lts c => lts_status_ok c
+      | HLts c => HttpSched.oracle_case c
       | Checked _ _ ok => ok
       | UnaryStatus _ code _ _ oc ms ds _ _ => (oc =? (if code =? 0 then 13 else code)) && ms && ds
       | StreamStatus _ kind sends code cls _ failed oc om ms ds _ _ =>
